@@ -329,7 +329,9 @@ class ModelCacheMixin:
             if len(results) == 0:
                 raise
 
-        if len(extra_constraints) == 0 and len(results) < n:
+        # the exhausted shortcut answers from the cached models alone, so they must be able to reproduce every result
+        # (they cannot when evaluating an AST on a model fails, e.g. with a division by zero)
+        if len(extra_constraints) == 0 and len(results) < n and self._get_batch_solutions(asts) == set(results):
             for e in asts:
                 # only mark an AST as eval-exhausted if e.variables is a subset of variables that the current solver
                 # knows about (from its constraints)
@@ -342,6 +344,14 @@ class ModelCacheMixin:
         return tuple(
             r[0] for r in ModelCacheMixin.batch_eval(self, [e], n, extra_constraints=extra_constraints, exact=exact)
         )
+
+    def _optimum_is_cached(self, e, m):
+        """
+        Whether the cached models can reproduce the optimum `m` of `e` that was just computed. Only then may later
+        min/max queries be answered from the cache (a model found while the solver did not know e's variables yet
+        was not recorded with them).
+        """
+        return m % 2 ** len(e) in self._get_solutions(e, allow_unconstrained=False)
 
     def min(self, e, extra_constraints=(), signed=False, exact=None):
         cached = []
@@ -361,7 +371,7 @@ class ModelCacheMixin:
             return min(cached, key=signed_key if signed else lambda v: v)
 
         m = super().min(e, extra_constraints=extra_constraints, signed=signed, exact=exact)
-        if len(extra_constraints) == 0:
+        if len(extra_constraints) == 0 and self._optimum_is_cached(e, m):
             (self._min_signed_exhausted if signed else self._min_exhausted)[e.hash()] = e
         return m
 
@@ -381,7 +391,7 @@ class ModelCacheMixin:
             return max(cached, key=signed_key if signed else lambda v: v)
 
         m = super().max(e, extra_constraints=extra_constraints, signed=signed, exact=exact)
-        if len(extra_constraints) == 0:
+        if len(extra_constraints) == 0 and self._optimum_is_cached(e, m):
             (self._max_signed_exhausted if signed else self._max_exhausted)[e.hash()] = e
         return m
 
